@@ -201,6 +201,19 @@ def pred_1d(case):
     if not np.array_equal(spl.coeffs, fresh.coeffs):
         raise Violation("C08:%s:reuse-after-quadrature" % tag, "after get_quadrature_coefficients() the interpolator gives coefficients "
                         "differing by %.3e from a fresh one" % np.abs(spl.coeffs - fresh.coeffs).max())
+    # ---- data handed over as views (the library's callers pass slices of 3-D / 4-D blocks): every other element of a
+    # larger buffer, a column of a C-ordered matrix, a reversed view.  Same data, so the same interpolant (to rounding)
+    big = np.full(2 * n + 1, np.nan)
+    big[1::2] = data
+    mat = np.full((n, 3), np.nan)
+    mat[:, 1] = data
+    rev = data[::-1].copy()
+    for what, view in (("strided", big[1::2]), ("column", mat[:, 1]), ("reversed", rev[::-1])):
+        with crash_is_violation("C08:interp1d", "compute_interpolant (data given as a %s view)" % what):
+            interp.compute_interpolant(view, spl)
+        if np.abs(spl.coeffs - c).max() > tol or not np.all(np.isfinite(spl.coeffs)):
+            raise Violation("C08:%s:view" % tag, "data given as a %s view: coefficients differ by %.3e from those of the "
+                            "contiguous copy (tol %.3e)" % (what, np.abs(spl.coeffs - c).max(), tol))
     nontriv = float(np.ptp(data)) > 0 and (len(space["breaks"]) - 1) >= 3
     return {"nontrivial": nontriv, "labels": [tag, kind, "deg%d" % p,
                                               "uniform" if space["uniform_breaks"] else "nonuniform"]}
@@ -319,6 +332,16 @@ def pred_2d(case):
                         % np.abs(again - fresh.coeffs).max())
     if not np.array_equal(spl.coeffs, C):
         raise Violation("C08:%s:reuse" % tag, "interpolating the first 2-D data again does not reproduce the first coefficients")
+    # ---- 2-D data in other memory layouts (Fortran order, a transposed view, a slice of a 3-D block) ----------------
+    blk = np.full((n1, 2, n2), np.nan)
+    blk[:, 1, :] = data
+    for what, view in (("fortran-ordered", np.asfortranarray(data)), ("transposed", np.ascontiguousarray(data.T).T),
+                       ("block-slice", blk[:, 1, :])):
+        with crash_is_violation("C08:interp2d", "2-D compute_interpolant (%s data)" % what):
+            interp.compute_interpolant(view, spl)
+        if np.abs(spl.coeffs - C).max() > tol or not np.all(np.isfinite(spl.coeffs)):
+            raise Violation("C08:%s:view" % tag, "%s data: 2-D coefficients differ by %.3e from those of the C-contiguous "
+                            "copy (tol %.3e)" % (what, np.abs(spl.coeffs - C).max(), tol))
     mixed = s1["periodic"] != s2["periodic"]
     return {"nontrivial": mixed or float(np.ptp(data)) > 0, "labels": [tag, case["kind"]]}
 
